@@ -610,7 +610,12 @@ func genC07(g *genCtx) {
 		boo := func() string {
 			return r.pick([]string{"true()", "false()", "not(" + genFlatPath(r) + ")", "boolean(" + genFlatPath(r) + ")", "count(*) > 0", "not(true())"})
 		}
-		set := func() string { return genFlatPath(r) }
+		set := func() string {
+			if r.chance(1, 3) {
+				return genFlatFiltered(r)
+			}
+			return genFlatPath(r)
+		}
 		var e string
 		switch r.intn(7) {
 		case 0:
@@ -722,8 +727,14 @@ func genNumExpr(r *rng, depth int) string {
 		case 2:
 			return genDecimalLit(r)
 		case 3:
+			if r.chance(1, 3) {
+				return "count(" + genFlatFiltered(r) + ")"
+			}
 			return "count(" + genFlatPath(r) + ")"
 		case 4:
+			if r.chance(1, 3) {
+				return "sum(" + genFlatFiltered(r) + ")"
+			}
 			return "sum(" + genFlatPath(r) + ")"
 		case 5:
 			return "number(" + r.pick([]string{genFlatPath(r), "'12'", "'1.5'", "'abc'", "''", "' 12 '", "'-3'", "'1e3'", "'+1'", "'.5'", "'5.'", "'0x10'", "'Infinity'", "'NaN'", "'-'", "'1 2'"}) + ")"
@@ -921,7 +932,7 @@ func genC09(g *genCtx) {
 	for i := 0; i < g.scale(3000, 30000); i++ {
 		d := pool[r.intn(len(pool))]
 		a := func() string {
-			return r.pick([]string{genFlatPath(r), genFlatPath(r), genStrLit(r), "string(" + genFlatPath(r) + ")", "zzz", "@zz"})
+			return r.pick([]string{genFlatPath(r), genFlatPath(r), genFlatFiltered(r), genStrLit(r), "string(" + genFlatPath(r) + ")", "string(" + genFlatFiltered(r) + ")", "zzz", "@zz"})
 		}
 		f := r.pick([]string{"contains", "starts-with", "ends-with"})
 		e := f + "(" + a() + ", " + a() + ")"
